@@ -183,6 +183,8 @@ def build(scn, trace, fault=None, script=None):
             C = cinner(X)
             trace.cons_calls.append(dict(X=np.atleast_2d(Xc), C=np.array(C, copy=True), ncalls=len(trace.calls),
                                          phase=trace.phase[0]))
+            if scn["cons"].get("mutates") and isinstance(X, np.ndarray) and X.flags.writeable:
+                X[...] = 12345.678  # a constraint function that works in place on the matrix it is handed
             return C
 
     kw = dict(x0=spell(x0, sp), lower_bounds=spell(lb, sp), upper_bounds=spell(ub, sp),
